@@ -14,7 +14,7 @@
 
   Allocator identity, the four traits (POCCA, POCMA, POCS, is_always_equal) and
   `select_on_container_copy_construction` are parameters (`Cfg`), consulted exactly where the code consults them.
-  The flags `fx6 … fx9` select the code as repaired by fixes/F6.patch … F9.patch (false = the code as it stands).
+  The flags `fx6 … fx9c` select the code as repaired by fixes/F6.patch … F9c.patch (false = the code before that repair).
 
   Core Lean only.  Values of elements are not modelled (C04–C06 do that); only lifetime and ownership.
 -/
@@ -76,7 +76,9 @@ structure Cfg where
   fx6 : Bool := false
   fx7 : Bool := false
   fx8 : Bool := false
-  fx9 : Bool := false
+  fx9 : Bool := false     -- fixes/F9d.patch: temporaries use the target's allocator
+  fx9a : Bool := false    -- fixes/F9.patch: move assignment / allocator-extended move construction between unequal allocators
+  fx9c : Bool := false    -- fixes/F9c.patch: POCCA copy assignment between unequal allocators reallocates
 deriving DecidableEq, Repr, Inhabited
 
 /-- `operator==` of two allocator instances -/
@@ -465,15 +467,28 @@ def opCtorRange (c : Cfg) (i j : Nat) (a : AllocId) : M Unit := do
     readCells c y.base y.n
     ctorWith c i a (rangeExts c y) true (rangeRowLen y)
 
+/-- `static_array(decay_type&&, allocator_type const&)` between UNEQUAL allocators in the repaired code (fixes/F9.patch):
+    storage is obtained from allocator `a`, the elements are move-constructed one by one (a throwing move: rollback and the
+    block is returned, `construct_or_deallocate_`), then `other.clear()` -/
+def moveElementwise (c : Cfg) (j : Nat) (y : Arr) (a : AllocId) : M (Option Nat) := do
+  readCells c y.base y.n
+  let p ← buildSafe c a y.n true
+  let _ ← clearArr c j y
+  pure p
+
 /-- move constructor array.hpp:1323 and allocator-extended move constructor array.hpp:1320, both through
     `static_array(decay_type&&, allocator_type const&)` array.hpp:258-261: the block is adopted, the source emptied -/
 def opCtorMove (c : Cfg) (i j : Nat) (a : Option AllocId) : M Unit := do
   let s ← get
   match getArr s j with
   | none => ub
-  | some y => do
-    setSlot i (some ⟨pickAlloc a y.alloc, y.base, y.ext, y.n⟩)
-    setSlot j (some { y with base := none, ext := emptyExts c.dim, n := 0 })
+  | some y =>
+    if c.fx9a && !c.eqv (pickAlloc a y.alloc) y.alloc then do     -- fixes/F9.patch: `alloc == other.get_allocator()` is false
+      let p ← moveElementwise c j y (pickAlloc a y.alloc)
+      setSlot i (some ⟨pickAlloc a y.alloc, p, y.ext, y.n⟩)
+    else do
+      setSlot i (some ⟨pickAlloc a y.alloc, y.base, y.ext, y.n⟩)
+      setSlot j (some { y with base := none, ext := emptyExts c.dim, n := 0 })
 
 def opDtor (c : Cfg) (i : Nat) : M Unit := do
   let s ← get
@@ -492,7 +507,7 @@ def opAssignCopy (c : Cfg) (i j : Nat) : M Unit := do
   let s ← get
   match getArr s i, getArr s j with
   | some x, some y =>
-    if extsEq x.ext y.ext then
+    if extsEq x.ext y.ext && !(c.fx9c && c.pocca && !c.eqv x.alloc y.alloc) then   -- fixes/F9c.patch: `keeps_allocator`
       if i = j then pure () else do
         let x1 : Arr := if c.pocca then { x with alloc := y.alloc } else x
         setSlot i (some x1)
@@ -520,7 +535,12 @@ def opAssignMove (c : Cfg) (i j : Nat) : M Unit := do
   let s ← get
   match getArr s i, getArr s j with
   | some x, some y =>
-    if i = j then pure () else noexcept do
+    if i = j then pure ()
+    else if c.fx9a && !c.pocma && !c.eqv x.alloc y.alloc then do
+      -- fixes/F9.patch: `*this = array{std::move(other), this->get_allocator()}` — not noexcept in this configuration
+      let p ← moveElementwise c j y x.alloc
+      noexcept (moveAssignFrom c i x x.alloc p y.ext y.n)
+    else noexcept do
       moveAssignFrom c i x y.alloc y.base y.ext y.n
       setSlot j (some { y with ext := emptyExts c.dim, n := 0 })
   | _, _ => ub
